@@ -200,6 +200,19 @@ def declared(rc):
             not re.fullmatch(r"float\(equivalent_sample_size\) / \(node_cardinality \* np\.prod\(parents_cardinalities\)\)", alpha):
         if not ("equivalent_sample_size" in alpha and "node_cardinality" in alpha and "parents_cardinalities" in alpha and "/" in alpha and "+" not in alpha and "-" not in alpha):
             rc.fail(f, f.node, f"BDeu prior = equivalent_sample_size / (node cardinality x #parent configurations) per cell; found alpha = {alpha}", construct="bdeu prior")
+    # user-given real pseudo counts must not be forced into an integer array
+    for s2 in sites(f.node, lambda n: isinstance(n, ast.Assign) and dotted(n.targets[0]) == "pseudo_counts"):
+        if not any(pol and isinstance(t, ast.Compare) and dotted(t.left) == "prior_type" and isinstance(t.comparators[0], ast.Constant) and t.comparators[0].value == "dirichlet"
+                   for t, pol in s2.conds):
+            continue
+        v = s2.node.value
+        for c in [x for x in ast.walk(v) if isinstance(x, ast.Call)]:
+            dt = kwarg(c, "dtype")
+            is_int = dt is not None and norm(dt) in ("int", "'int'", "np.int64", "np.int32", "np.int_")
+            mentions = any(isinstance(x, ast.Name) and x.id == "pseudo_counts" for a in list(c.args) + [k.value for k in c.keywords] for x in ast.walk(a))
+            if is_int and mentions or (call_name(c) == "astype" and c.args and norm(c.args[0]) in ("int", "'int'") and "pseudo_counts" in norm(c)):
+                rc.fail(f, c, "explicit Dirichlet pseudo counts are real numbers: `" + norm(c, 70) + "` truncates them to integers (0.5 becomes 0)", construct="dirichlet pseudo counts forced to int")
+        rc.ob(f"dirichlet pseudo counts: {norm(v, 80)}")
     bc = d.get("bayesian_counts", [None])[0]
     rc.ob(f"posterior counts = {norm(bc) if bc is not None else None}")
     if not (isinstance(bc, ast.BinOp) and isinstance(bc.op, ast.Add) and {dotted(bc.left), dotted(bc.right)} == {"state_counts", "pseudo_counts"}):
@@ -261,6 +274,49 @@ def weighted(rc):
     rc.ob(f"EM E-step weights: {[norm(n.value, 90) for n in wt]}")
     if not okw:
         rc.fail(w, w.node, "E-step weights of one observed row must be its posterior over latent states (normalised) times the row's multiplicity", construct="em weights")
+    # E-step batches cover every distinct observed row exactly once (evaluated on concrete sizes)
+    from ..layout import Env, eval_expr
+    cw = repo.func(EM, "ExpectationMaximization._compute_weights")
+    gens = [n for n in walk_no_nested(cw.node) if isinstance(n, ast.GeneratorExp) and "_parallel_compute_weights" in norm(n.elt)]
+    if len(gens) != 1:
+        raise AnalysisError("EM._compute_weights: batch generator not found")
+    g = gens[0]
+    call = g.elt
+    off_expr = call.args[3] if len(call.args) > 3 else None
+    bs_expr = call.args[4] if len(call.args) > 4 else None
+    pw = repo.func(EM, "ExpectationMaximization._parallel_compute_weights")
+    row_loop = [n for n in walk_no_nested(pw.node) if isinstance(n, ast.For) and isinstance(n.iter, ast.Call) and call_name(n.iter) == "range" and "offset" in norm(n.iter)]
+    if off_expr is None or not row_loop:
+        raise AnalysisError("EM: cannot read the batch offsets / row loop")
+    local_defs = [n for n in cw.body if isinstance(n, ast.Assign) and isinstance(n.targets[0], ast.Name)]
+    bad = None
+    for nrows, bsz in ((7, 3), (6, 3), (2, 5), (1, 1), (10, 4)):
+        env = Env(batch_size=bsz, **{"data_unique.shape": (nrows, 4)})
+        try:
+            for st in local_defs:
+                if st.targets[0].id in ("data_unique", "n_counts", "cache"):
+                    continue
+                try:
+                    env[st.targets[0].id] = eval_expr(st.value, env)
+                except AnalysisError:
+                    pass
+            seen = []
+            for val in eval_expr(g.generators[0].iter, env):
+                e2 = Env(env)
+                e2[dotted(g.generators[0].target)] = val
+                off = eval_expr(off_expr, e2)
+                b = eval_expr(bs_expr, e2) if bs_expr is not None else bsz
+                e3 = Env(offset=off, batch_size=b, **{"data_unique.shape": (nrows, 4)})
+                seen.extend(eval_expr(row_loop[0].iter, e3))
+        except AnalysisError as ex:
+            raise AnalysisError(f"EM batch coverage: {ex}")
+        rc.report.rows += 1
+        if sorted(seen) != list(range(nrows)) and bad is None:
+            bad = (nrows, bsz, sorted(seen))
+    rc.ob(f"EM E-step batches: offsets {norm(off_expr)} for {norm(g.generators[0].target)} in {norm(g.generators[0].iter)}; rows {norm(row_loop[0].iter)}")
+    if bad:
+        rc.fail(cw, g, f"the E-step batches do not cover every distinct observed row exactly once: with {bad[0]} rows and batch_size {bad[1]} the rows processed are {bad[2]}",
+                construct="em batch coverage")
     conv = repo.func(EM, "ExpectationMaximization._is_converged")
     if "atol=atol" not in norm(conv.node, 5000):
         rc.fail(conv, conv.node, "convergence must use the requested tolerance", construct="em tolerance")
@@ -293,6 +349,13 @@ MUTANTS = [
          old="        state_counts = self.state_counts(node, weighted=weighted)\n\n        # if a column", new="        state_counts = self.state_counts(node)\n\n        # if a column"),
     dict(kind="break", name="em-mstep-unweighted", file=EM, expect="C06.weighted",
          old="new_cpds.append(mle.estimate_cpd(var, weighted=True))", new="new_cpds.append(mle.estimate_cpd(var, weighted=False))"),
+    dict(kind="break", name="dirichlet-scalar-int-array", file=BE, expect="C06.declared",
+         old="pseudo_counts = np.ones(cpd_shape, dtype=int) * pseudo_counts", new="pseudo_counts = np.full(cpd_shape, pseudo_counts, dtype=int)"),
+    dict(kind="break", name="em-drops-last-batch", file=EM, expect="C06.weighted",
+         old="            for i in range(0, data_unique.shape[0], batch_size)\n", new="            for i in range(0, data_unique.shape[0] - batch_size + 1, batch_size)\n"),
+    dict(kind="twin", name="em-batches-by-index", file=EM,
+         old="                data_unique, latent_card, n_counts, i, batch_size\n            )\n            for i in range(0, data_unique.shape[0], batch_size)\n",
+         new="                data_unique, latent_card, n_counts, b * batch_size, batch_size\n            )\n            for b in range((data_unique.shape[0] + batch_size - 1) // batch_size)\n"),
     dict(kind="twin", name="consistent-reverse-sorted-everywhere-not-applied", file=MLE,
          old="        cpd.normalize()\n        return cpd\n\n    def estimate_potentials", new="        cpd.normalize(inplace=True)\n        return cpd\n\n    def estimate_potentials"),
 ]
